@@ -300,7 +300,13 @@ class Server:
         from pydap.wsgi.app import DapServer
 
         self.layout = layout
-        self.app = DapServer(layout.root)
+        # the data directory as the operator spells it: canonical, through a sibling and `..`, with a trailing slash,
+        # with a doubled slash, with a `.` segment — one server object per layout, the spelling a function of the layout
+        head, tail = os.path.split(layout.root)
+        spellings = [layout.root, os.path.join(head, "other", "..", tail), layout.root + "/",
+                     head + "//" + tail, os.path.join(head, ".", tail), os.path.join(layout.root, "sub", "..")]
+        self.spelling = spellings[layout.seed_info["idx"] % len(spellings) if getattr(layout, "seed_info", None) else 0]
+        self.app = DapServer(self.spelling)
         self.handlers = list(self.app.handlers)
         self.exts = handler_exts(self.handlers)
         self.white = whitelist_prefixes()
